@@ -175,7 +175,9 @@ def oracle(ctx, m, obs, case):
         ctx.fail('same-faces:to_surface-nodes', 'to_surface() nodes are not the surface nodes in storage order', case,
                  {'nodes': obs['surf_nodes'][:10]})
     objf = [[int(x) for x in ln.split()[1:]] for ln in obs['obj_text'].splitlines() if ln.startswith('f ')]
-    if sorted(U.cyc_canon([ids[k - 1] for k in f]) for f in objf) != sorted(U.cyc_canon(f) for f in surf):
+    if any(k < 1 or k > len(ids) for f in objf for k in f):
+        ctx.fail('same-faces:obj', 'an f line of the .obj file refers to a vertex number outside 1..n', case, {'f_lines': objf[:5]})
+    elif sorted(U.cyc_canon([ids[k - 1] for k in f]) for f in objf) != sorted(U.cyc_canon(f) for f in surf):
         ctx.fail('same-faces:obj', 'the f lines of the .obj file differ from extract_surface()', case, {'f_lines': objf[:5]})
     if 'fistr' in obs:
         fk = sorted(tuple(sorted(conn[e][i] for i in FISTR_FACES[k - 1])) for e, k in obs['fistr'])
